@@ -183,4 +183,58 @@ theorem ringHeap_isRing (n : Nat) (hn : 0 < n) : IsRing (ringHeap n) 0 (List.ran
       simp [ringHeap, hy', h1, hn]
       omega
 
+/-! ### `unlink()` is idempotent on every heap -/
+
+theorem nodeUnlink_next_self (h : Heap) (a : Nat) : (nodeUnlink h a).next a = a := by
+  unfold nodeUnlink
+  by_cases e : h.next a = a <;> simp [e, Heap.setNext, Heap.setPrev]
+
+theorem nodeUnlink_idem (h : Heap) (a : Nat) : nodeUnlink (nodeUnlink h a) a = nodeUnlink h a := by
+  have e := nodeUnlink_next_self h a
+  generalize nodeUnlink h a = g at e
+  unfold nodeUnlink
+  simp [e]
+
+/-! ### every well-formed family of non-empty rings is realised by a heap (built with `dlist_init` + `dlist_add_prev`) -/
+
+theorem realise_ring_tail {a : Nat} {B : Rings} : ∀ (xs ys : List Nat) (h : Heap),
+    RingsOK h ((a :: ys) :: B) → (a :: (ys ++ xs)).Nodup → (∀ x ∈ xs, ∀ s ∈ B, x ∉ s) →
+    ∃ h', RingsOK h' ((a :: (ys ++ xs)) :: B) := by
+  intro xs
+  induction xs with
+  | nil => intro ys h ok _ _; exact ⟨h, by simpa using ok⟩
+  | cons x xs ih =>
+    intro ys h ok nd hB
+    have nd' : ((a :: ys) ++ x :: xs).Nodup := nd
+    have hf : Free ((a :: ys) :: B) x := by
+      intro s hs
+      simp only [List.mem_cons] at hs
+      rcases hs with rfl | hs
+      · intro hx
+        exact (List.nodup_append.mp nd').2.2 x hx x (by simp) rfl
+      · exact hB x (by simp) s hs
+    have ok' := step_refines_c ok (AStep.caddPrevFree (.refl _) hf)
+    obtain ⟨h', ok''⟩ := ih (ys ++ [x]) _ ok' (by simpa [List.append_assoc] using nd)
+      (fun x' hx' => hB x' (by simp [hx']))
+    exact ⟨h', by simpa [List.append_assoc] using ok''⟩
+
+theorem wf_realised : ∀ (A : Rings), RingsWF A → (∀ r ∈ A, r ≠ []) → ∃ h, RingsOK h A := by
+  intro A
+  induction A with
+  | nil => intro _ _; exact ⟨⟨id, id⟩, ⟨by simp, List.Pairwise.nil⟩⟩
+  | cons r B ih =>
+    intro wf ne
+    obtain ⟨hd, hB⟩ := List.pairwise_cons.mp wf.disj
+    obtain ⟨h, ok⟩ := ih ⟨fun s hs => wf.nodup s (List.mem_cons_of_mem _ hs), hB⟩
+      (fun s hs => ne s (List.mem_cons_of_mem _ hs))
+    cases r with
+    | nil => exact absurd rfl (ne [] (by simp))
+    | cons a xs =>
+      have hfa : Free B a := fun s hs => hd s hs a (by simp)
+      have ok1 : RingsOK (dlistInit h a) ([a] :: B) := ok.initFree hfa
+      have nd := wf.nodup (a :: xs) (by simp)
+      obtain ⟨h', ok'⟩ := realise_ring_tail xs [] _ ok1 (by simpa using nd)
+        (fun x hx s hs => hd s hs x (by simp [hx]))
+      exact ⟨h', by simpa using ok'⟩
+
 end Igris.C01
